@@ -17,6 +17,8 @@ class Ctx:
         self.config = config
         self.path = factsmod.facts_path(config, repo)
         self.F = factsmod.Facts(self.path)
+        import anchors
+        self.A = anchors.get(self.F)
         self.M = model.build(self.F)
         self._paths = {}
         self._cg = None
